@@ -2,15 +2,14 @@
    Model: PolFile/DecRatModel.v (decimal literals, conversions as coded), PolFile/PolModel.v
    (descriptions, render, the model parser).  Proofs: PolFile/Chars.v, PolFile/PolProofs.v.
 
-   What is proved here are the component theorems of the round trip
-        wf d -> parse (render st pi d) = Poly (denote d)
-   (exact integer/rational tokens incl. legacy pairs, letter case, option order, line splitting,
-   comments); the composed statement itself is NOT proved in Coq: it is exercised on every generated
-   case by the check (extracted parse (render d) compared with extracted denote d) - see the
-   [Example]s at the end for what it looks like.  Hence the suffix _partial on the pieces that
-   stand for it. *)
-Require Import String Ascii List ZArith NArith QArith Bool.
+   The composed round trip  wf d -> parse (render st pi d) = Poly (denote d)  is proved in full for
+   3.x monomial files with Integer / Rational coefficients, dense and sparse (C10_parse_render).
+   For the other kinds (secular, Chebyshev, floating point, legacy 2.x) the text/line/option layers
+   are proved for every description (the *_partial theorems: what remains is their coefficient
+   readers), and the composed statement is exercised by the check on every generated case. *)
+Require Import String Ascii List ZArith NArith QArith Bool Lia.
 Require Import MPSV.PolFile.Chars MPSV.PolFile.DecRatModel MPSV.PolFile.PolModel MPSV.PolFile.PolProofs.
+Require Import MPSV.PolFile.RoundTripText MPSV.PolFile.RoundTripLines MPSV.PolFile.RoundTripOptions MPSV.PolFile.RoundTripSettings MPSV.PolFile.RoundTrip.
 Import ListNotations.
 Local Open Scope char_scope.
 
@@ -83,6 +82,54 @@ Theorem C10_filler_lines_have_no_tokens : forall f : filler, tokens (strip_comme
 Proof. exact filler_line_tokens. Qed.
 Print Assumptions C10_filler_lines_have_no_tokens.
 
+(* ------------------------------------------------------------------ the composed round trip *)
+
+(* THE theorem, for 3.x monomial files with exact coefficients, dense or sparse: for every style
+   (header, comments, blank lines, letter case, spacing, line layout, explicit defaults, final newline)
+   and every permutation code of the option lines, the model parser returns exactly the polynomial the
+   description denotes: degree, structure, density, precision, sparsity pattern, every coefficient as
+   the canonical fraction written. *)
+Theorem C10_parse_render : forall (st : style) (pi : list nat) (d : polydesc),
+  wf d -> d_legacy d = false -> d_kind d = KMonomial ->
+  (d_ctype d = TInteger \/ d_ctype d = TRational) ->
+  parse (render st pi d) = Poly (denote d).
+Proof. exact parse_render_monomial_exact. Qed.
+Print Assumptions C10_parse_render.
+
+(* corollaries: option order, letter case, comments, white space and layout are irrelevant *)
+Corollary C10_layout_order_case_comments_irrelevant : forall (st st' : style) (pi pi' : list nat) (d : polydesc),
+  wf d -> d_legacy d = false -> d_kind d = KMonomial ->
+  (d_ctype d = TInteger \/ d_ctype d = TRational) ->
+  parse (render st pi d) = parse (render st' pi' d).
+Proof. intros. rewrite !parse_render_monomial_exact by assumption. reflexivity. Qed.
+Print Assumptions C10_layout_order_case_comments_irrelevant.
+
+(* every kind of description: what the line reader sees of a rendered text (mps_skip_comments,
+   line splitting, comment stripping) is the list of rendered lines, comments cut, leading blank
+   lines dropped *)
+Theorem C10_rendered_lines_partial : forall (b : bool) (ls : list text),
+  Forall no_nl ls ->
+  effective_lines (split_lines (skip_comments (unlines b ls))) = skipws (effective_lines ls).
+Proof. exact parse_lines. Qed.
+Print Assumptions C10_rendered_lines_partial.
+
+(* every kind of description (monomial, secular, Chebyshev; any coefficient type): the option phase
+   on the rendered option section, in any order, case and spacing, reaches the settings of d and
+   hands the rest of the lines to the coefficient reader *)
+Theorem C10_options_phase_partial : forall (st : style) (pi : list nat) (d : polydesc) (REST : list text),
+  (1 <= d_degree d)%nat -> Forall (fun l => has_char ";" l = false) REST ->
+  options_phase (zip_default stripped default_optdeco (permute pi (options_of st d)) (st_opts st) ++ REST) initial_settings
+  = Some (target_settings d, REST).
+Proof. exact options_phase_of_render. Qed.
+Print Assumptions C10_options_phase_partial.
+
+(* every kind: the coefficient section gives back exactly its tokens, whatever the line layout *)
+Theorem C10_token_section_partial : forall (groups : list (list text)) (decos : list linedeco),
+  Forall (Forall tok_ok) groups -> Forall (fun g => g <> []) groups ->
+  all_tokens (effective_lines (concat (zip_default token_lines default_linedeco groups decos))) = concat groups.
+Proof. intros. apply (eff_token_section groups decos); assumption. Qed.
+Print Assumptions C10_token_section_partial.
+
 (* ------------------------------------------------------------------ formerly refuted, now repaired in the code *)
 
 Definition lit_0_5 : declit :=
@@ -133,6 +180,13 @@ Definition mono_sparse_q : polydesc :=
                   {| t_idx := 0; t_re := NInt (-12345678901234567890) 0; t_im := NRat 10 0 100 0 |};
                   {| t_idx := 3; t_re := NInt 0 3; t_im := NInt 1 0 |} ];
      d_bterms := [] |}.
+
+Example C10_parse_render_hypotheses_satisfiable :
+  wf mono_sparse_q /\ d_legacy mono_sparse_q = false /\ d_kind mono_sparse_q = KMonomial /\ d_ctype mono_sparse_q = TRational.
+Proof.
+  unfold wf, mono_sparse_q; cbn. repeat split; auto; try discriminate; try lia.
+  all: repeat constructor; cbn; auto; try discriminate; try lia; intuition discriminate.
+Qed.
 
 Example C10_example_monomial_sparse_rational :
   parse (render busy_style [3; 0; 2; 9; 1]%nat mono_sparse_q) = Poly (denote mono_sparse_q)
